@@ -209,115 +209,7 @@ func runC07(c *Ctx) {
 		c.check(okc, "R3", name+" worker failure closes the connection", p.Pos(fn.Pos()), "conn.Close() when a worker returns an error", "a worker that stops with an error leaves the receive loop blocked")
 	}
 
-	// ---------- R4 no panic on request-derived data in the handling cones ----------
-	{
-		w := newZWorld(p)
-		var roots []*ssa.Function
-		for _, n := range []string{"handlePacket", "(*RequestServer).packetWorker", "(*Server).sftpServerWorker", "requestFromPacket", "(*packetManager).controller", "(*packetManager).maybeSendPackets"} {
-			if f := p.Func(n); f != nil {
-				roots = append(roots, f)
-			}
-		}
-		cone := p.cone(roots...)
-		ord := map[string]int{}
-		lifted := map[*ssa.Function][]zreq{}
-		n := 0
-		for _, fn := range p.LibFuncs() {
-			if !cone[fn] || outermost(fn).Package() != p.Sftp {
-				continue
-			}
-			nm := outermost(fn).Name()
-			if strings.HasPrefix(nm, "Marshal") || strings.HasPrefix(nm, "marshal") || nm == "sendPacket" || nm == "runLs" || nm == "lsFormatID" || typeName(recvTypeOf(outermost(fn))) == "root" ||
-				typeName(recvTypeOf(outermost(fn))) == "memFile" || typeName(recvTypeOf(outermost(fn))) == "listerat" {
-				continue // encoders work on server-produced data; the in-memory example handler is user code
-			}
-			z := w.get(fn)
-			for _, o := range z.obligationsOf() {
-				keep := false
-				switch x := o.In.(type) {
-				case *ssa.TypeAssert:
-					keep = true
-				case *ssa.Slice:
-					keep = requestTainted(p, x.X) || requestTainted(p, x.High) || requestTainted(p, x.Low)
-				case *ssa.IndexAddr:
-					keep = requestTainted(p, x.X) || requestTainted(p, x.Index)
-				case *ssa.Index:
-					keep = requestTainted(p, x.X) || requestTainted(p, x.Index)
-				case *ssa.Panic:
-					keep = false
-				case *ssa.MakeSlice:
-					// a size computed from a request field: len <= cap, and no wrap-around in the size arithmetic
-					// (how large the allocation may be is the option's business and is not judged here)
-					keep = (o.Kind == "make" || o.Kind == "wrap") && (requestTainted(p, x.Len) || requestTainted(p, x.Cap))
-				}
-				if fnName(fn) == "(*packetManager).maybeSendPackets" || fnName(fn) == "(*allocator).GetPage" {
-					if o.Kind == "slice" || o.Kind == "index" {
-						keep = true
-					}
-				}
-				if !keep {
-					continue
-				}
-				n++
-				decideObl(c, w, z, o, "R4", oblKey(o, fn, ord), lifted)
-			}
-		}
-		c.check(n >= 8, "R4", "panic-capable sites on request data", "?", fmt.Sprintf("%d sites examined", n), fmt.Sprintf("only %d sites found", n))
-		// the in-package backend behind InMemHandler() receives offsets and sizes straight from the wire
-		// (uint64 converted to int64, so also negative): its slicing and growing must not panic for any of them
-		nb := 0
-		for _, name := range []string{"(*memFile).ReadAt", "(*memFile).WriteAt", "(*memFile).Truncate", "(*memFile).grow"} {
-			fn := p.Func(name)
-			if fn == nil {
-				c.missing("R4", name)
-				continue
-			}
-			z := w.get(fn)
-			for _, o := range z.obligationsOf() {
-				if o.Kind != "slice" && o.Kind != "index" && o.Kind != "make" && o.Kind != "alloc" {
-					continue
-				}
-				// decided here: the sanity of the wire values themselves (sign, absolute bound).  Goals that relate
-				// them to the file's current length after a call that grows it are beyond the field memory of the
-				// prover (a method call invalidates the receiver's cells) and are left to the backend's own logic.
-				if o.Kind == "slice" || o.Kind == "index" {
-					var goals []lin
-					for _, g := range o.Goals {
-						onlyParams := true
-						for k := range g.coef {
-							if !strings.HasPrefix(k, "p:") {
-								onlyParams = false
-							}
-						}
-						if onlyParams {
-							goals = append(goals, g)
-						}
-					}
-					if len(goals) == 0 {
-						continue
-					}
-					o.Goals = goals
-					o.Desc = "offset/size from the wire is not negative"
-				}
-				if o.Kind == "alloc" {
-					// not a question of proportion here (a sparse write legitimately grows the file): the size must
-					// be bounded by some constant that make() accepts on every platform, or a large offset panics
-					if ms, ok := o.In.(*ssa.MakeSlice); ok {
-						up := z.term(ms.Len)
-						up.c -= 1 << 31
-						o.Alt = nil
-						o.Goals = []lin{up}
-						o.Desc = "growth bounded by a constant (at most 2 GiB)"
-					}
-				}
-				nb++
-				decideObl(c, w, z, o, "R4", oblKey(o, fn, ord), lifted)
-			}
-		}
-		c.check(nb >= 3, "R4", "in-memory backend sites", "?", fmt.Sprintf("%d sites", nb), fmt.Sprintf("only %d sites found in the in-memory backend", nb))
-		// allocator page invariant: everything stored in the page lists is a maxMsgLength page or came from them
-		checkPageInvariant(c, "R4")
-	}
+	checkServerPanicSites(c)
 	checkJoinUnderLock(c, "R5")
 	checkAttrsValidatedAtDecode(c, "R6")
 	// R7: a handler blocked on its request context must be released before Serve joins the workers (shared with C11.R11)
@@ -1193,5 +1085,119 @@ func checkBadPacketEndsSession(c *Ctx) {
 			}, nil)
 			c.check(okRet && !nilStore, "R2", name+" reports the decoding error", p.Pos(bad.Instrs[0].Pos()), "Serve returns makePacket's error", "Serve returns nil although it stopped because of a malformed packet")
 		}
+	}
+}
+
+// checkServerPanicSites (C07.R4; shared as C02.R10): no panic on request-derived data in the handling cones — a panic in
+// a worker ends the process (or, recovered by nobody, leaves every outstanding request unanswered).
+func checkServerPanicSites(c *Ctx) {
+	p := c.P
+	{
+		w := newZWorld(p)
+		var roots []*ssa.Function
+		for _, n := range []string{"handlePacket", "(*RequestServer).packetWorker", "(*Server).sftpServerWorker", "requestFromPacket", "(*packetManager).controller", "(*packetManager).maybeSendPackets"} {
+			if f := p.Func(n); f != nil {
+				roots = append(roots, f)
+			}
+		}
+		cone := p.cone(roots...)
+		ord := map[string]int{}
+		lifted := map[*ssa.Function][]zreq{}
+		n := 0
+		for _, fn := range p.LibFuncs() {
+			if !cone[fn] || outermost(fn).Package() != p.Sftp {
+				continue
+			}
+			nm := outermost(fn).Name()
+			if strings.HasPrefix(nm, "Marshal") || strings.HasPrefix(nm, "marshal") || nm == "sendPacket" || nm == "runLs" || nm == "lsFormatID" || typeName(recvTypeOf(outermost(fn))) == "root" ||
+				typeName(recvTypeOf(outermost(fn))) == "memFile" || typeName(recvTypeOf(outermost(fn))) == "listerat" {
+				continue // encoders work on server-produced data; the in-memory example handler is user code
+			}
+			z := w.get(fn)
+			for _, o := range z.obligationsOf() {
+				keep := false
+				switch x := o.In.(type) {
+				case *ssa.TypeAssert:
+					keep = true
+				case *ssa.Slice:
+					keep = requestTainted(p, x.X) || requestTainted(p, x.High) || requestTainted(p, x.Low)
+				case *ssa.IndexAddr:
+					keep = requestTainted(p, x.X) || requestTainted(p, x.Index)
+				case *ssa.Index:
+					keep = requestTainted(p, x.X) || requestTainted(p, x.Index)
+				case *ssa.Panic:
+					keep = false
+				case *ssa.MakeSlice:
+					// a size computed from a request field: len <= cap, and no wrap-around in the size arithmetic
+					// (how large the allocation may be is the option's business and is not judged here)
+					keep = (o.Kind == "make" || o.Kind == "wrap") && (requestTainted(p, x.Len) || requestTainted(p, x.Cap))
+				}
+				if fnName(fn) == "(*packetManager).maybeSendPackets" || fnName(fn) == "(*allocator).GetPage" {
+					if o.Kind == "slice" || o.Kind == "index" {
+						keep = true
+					}
+				}
+				if !keep {
+					continue
+				}
+				n++
+				decideObl(c, w, z, o, "R4", oblKey(o, fn, ord), lifted)
+			}
+		}
+		c.check(n >= 8, "R4", "panic-capable sites on request data", "?", fmt.Sprintf("%d sites examined", n), fmt.Sprintf("only %d sites found", n))
+		// the in-package backend behind InMemHandler() receives offsets and sizes straight from the wire
+		// (uint64 converted to int64, so also negative): its slicing and growing must not panic for any of them
+		nb := 0
+		for _, name := range []string{"(*memFile).ReadAt", "(*memFile).WriteAt", "(*memFile).Truncate", "(*memFile).grow"} {
+			fn := p.Func(name)
+			if fn == nil {
+				c.missing("R4", name)
+				continue
+			}
+			z := w.get(fn)
+			for _, o := range z.obligationsOf() {
+				if o.Kind != "slice" && o.Kind != "index" && o.Kind != "make" && o.Kind != "alloc" {
+					continue
+				}
+				// decided here: the sanity of the wire values themselves (sign, absolute bound).  Goals that relate
+				// them to the file's current length after a call that grows it are beyond the field memory of the
+				// prover (a method call invalidates the receiver's cells) and are left to the backend's own logic.
+				if o.Kind == "slice" || o.Kind == "index" {
+					var goals []lin
+					for _, g := range o.Goals {
+						onlyParams := true
+						for k := range g.coef {
+							if !strings.HasPrefix(k, "p:") {
+								onlyParams = false
+							}
+						}
+						if onlyParams {
+							goals = append(goals, g)
+						}
+					}
+					if len(goals) == 0 {
+						continue
+					}
+					o.Goals = goals
+					o.Desc = "offset/size from the wire is not negative"
+				}
+				if o.Kind == "alloc" {
+					// not a question of proportion here (a sparse write legitimately grows the file): the size must
+					// be bounded by some constant that make() accepts on every platform, or a large offset panics
+					if ms, ok := o.In.(*ssa.MakeSlice); ok {
+						up := z.term(ms.Len)
+						up.c -= 1 << 31
+						o.Alt = nil
+						o.Goals = []lin{up}
+						o.Desc = "growth bounded by a constant (at most 2 GiB)"
+					}
+				}
+				nb++
+				decideObl(c, w, z, o, "R4", oblKey(o, fn, ord), lifted)
+			}
+		}
+		c.check(nb >= 3, "R4", "in-memory backend sites", "?", fmt.Sprintf("%d sites", nb), fmt.Sprintf("only %d sites found in the in-memory backend", nb))
+		// allocator page invariant: everything stored in the page lists is a maxMsgLength page or came from them
+		checkPageInvariant(c, "R4")
 	}
 }
